@@ -3,8 +3,28 @@
 package health
 
 import (
+	"sync"
+	"sync/atomic"
+
 	gohealth "github.com/InVisionApp/go-health/v2"
 )
+
+var verifStopEpochs sync.Map // *Prober -> *atomic.Int64
+
+// verifProberStopped counts effective Stop() calls: go-health resets its consecutive-failure
+// counter when the checks are stopped, which the harness has to mirror for injected completions.
+func verifProberStopped(p *Prober) {
+	c, _ := verifStopEpochs.LoadOrStore(p, &atomic.Int64{})
+	c.(*atomic.Int64).Add(1)
+}
+
+// VerifStopEpoch returns how many times Stop() took effect on this prober.
+func (p *Prober) VerifStopEpoch() int64 {
+	if c, ok := verifStopEpochs.Load(p); ok {
+		return c.(*atomic.Int64).Load()
+	}
+	return 0
+}
 
 // VerifInject delivers a probe completion through the same path go-health uses
 // (build tag `verif` only).
